@@ -20,6 +20,7 @@ EXPLANATION = (
     "not JSON-native (DATE, TIME/DURATION) or is a lookup name prefers raw_value. to_json, its default hook and from_json are interpreted over abstract values (what is handed to orjson.dumps; the hook on bytes / bytearray / timedelta / another class; NMEA2000Message(**d) with fields rebuilt as NMEA2000Field(**f) in order). UNDECIDED: value equality after the round trip (floats, NaN, "
     "non-ASCII), enum/identity reconstruction."
     ' [JSON-TYPES class::*] NMEA2000Message, NMEA2000Field and IsoName are dataclasses (serialised natively by orjson) or are converted by the default hook; PhysicalQuantities / FieldTypes are Enums.'
+    ' Seventh round: [JSON-BACK] raw value 0 survives from_json; the `encode --file` branch of cli.py is interpreted on stand-in files (one JSON text with and without a final line break, two lines): what from_json receives, joined, is the text of the file.'
 )
 ASSUMPTIONS = ["CPython ast parser", "orjson natively serialises str/int/float/bool/None/list/dict/dataclass/datetime/date/time/enum and calls `default` for anything else",
                "sym.py guard extraction; teval.py evaluation of membership tests on stand-in lists"]
@@ -472,6 +473,17 @@ def json_rules(chk, program):
         chk_saved, chk = chk, real
         opt = [k.value for k in d.keywords if k.arg == 'option'] + (list(d.args[2:3]) if len(d.args) > 2 else [])
         flags = [n.attr for o in opt for n in ast.walk(o) if isinstance(n, ast.Attribute) and n.attr.startswith('OPT_')]
+        if len(opt) == 1 and isinstance(opt[0], ast.Name) and not flags:
+            # the option word is assembled in a local (`option = 0; if pretty: option |= orjson.OPT_INDENT_2`): every flag that can enter it counts
+            srcs = [n.value for n in ast.walk(tj) if isinstance(n, (ast.Assign, ast.AugAssign, ast.AnnAssign)) and n.value is not None
+                    and any(isinstance(t, ast.Name) and t.id == opt[0].id for t in (n.targets if isinstance(n, ast.Assign) else [n.target]))]
+            plain = all(isinstance(v_, ast.Constant) and v_.value in (0, None) or
+                        all(isinstance(x, (ast.Attribute, ast.Name, ast.BinOp, ast.BitOr, ast.Load, ast.IfExp, ast.Constant, ast.Compare, ast.Is, ast.IsNot, ast.Not, ast.UnaryOp, ast.BoolOp, ast.And, ast.Or)) for x in ast.walk(v_))
+                        for v_ in srcs)
+            if srcs and plain and opt[0].id not in [a.arg for a in tj.args.args + tj.args.kwonlyargs]:
+                flags = [n.attr for v_ in srcs for n in ast.walk(v_) if isinstance(n, ast.Attribute) and n.attr.startswith('OPT_')]
+                if not flags and all(isinstance(v_, ast.Constant) for v_ in srcs):
+                    opt = []
         unknown = [f for f in flags if f not in NARROWING and f not in HARMLESS and f != 'OPT_APPEND_NEWLINE']
         if unknown or (opt and not flags):
             chk.unknown('JSON-TYPES', 'to_json::options', f"orjson option not classified: {unknown or ast.unparse(opt[0])}", MSG, d.lineno)
